@@ -250,30 +250,36 @@ class CoroStart(Awaitable[T_co]):
         # yield up the initial future from `coro_start`.
         # This is similar to how `yield from` is defined (see pep-380)
         # except that it uses a coroutines's send() and throw() methods.
+        # The coroutine must be resumed outside of any `except` block of this
+        # generator: an exception being handled here would otherwise be visible
+        # to the coroutine as its ambient exception (sys.exc_info(), bare `raise`,
+        # implicit __context__), which a native `await` does not do.
         while True:
+            thrown: Optional[BaseException] = None
             try:
                 in_value = yield out_value
-            except GeneratorExit:
-                self.coro.close()
-                raise
             except BaseException as exc:
-                try:
-                    out_value = (
-                        self.context.run(self.coro.throw, exc)  # type: ignore
-                        if self.context
-                        else self.coro.throw(exc)
-                    )
-                except StopIteration as exc:
-                    return cast(T_co, exc.value)
-            else:
-                try:
+                thrown = exc
+            try:
+                if thrown is None:
                     out_value = (
                         self.context.run(self.coro.send, in_value)
                         if self.context
                         else self.coro.send(in_value)
                     )
-                except StopIteration as exc:
-                    return cast(T_co, exc.value)
+                elif isinstance(thrown, GeneratorExit):
+                    self.coro.close()
+                    raise thrown
+                else:
+                    out_value = (
+                        self.context.run(self.coro.throw, thrown)  # type: ignore
+                        if self.context
+                        else self.coro.throw(thrown)
+                    )
+            except StopIteration as stop:
+                return cast(T_co, stop.value)
+            finally:
+                thrown = None  # do not keep the exception (and its traceback) alive
 
     @overload
     async def athrow(self, exc: Type[BaseException]) -> T_co:
@@ -522,23 +528,25 @@ def coro_iter(coro: Coroutine[Any, Any, T]) -> Generator[Any, Any, T]:
     except StopIteration as exc:
         return cast(T, exc.value)
 
+    # resume the coroutine outside of any `except` block, see CoroStart.__await__
     while True:
+        thrown: Optional[BaseException] = None
         try:
             in_value = yield out_value
-
-        except GeneratorExit:
-            coro.close()
-            raise
         except BaseException as exc:
-            try:
-                out_value = coro.throw(exc)
-            except StopIteration as exc:
-                return cast(T, exc.value)
-        else:
-            try:
+            thrown = exc
+        try:
+            if thrown is None:
                 out_value = coro.send(in_value)
-            except StopIteration as exc:
-                return cast(T, exc.value)
+            elif isinstance(thrown, GeneratorExit):
+                coro.close()
+                raise thrown
+            else:
+                out_value = coro.throw(thrown)
+        except StopIteration as stop:
+            return cast(T, stop.value)
+        finally:
+            thrown = None
 
 
 def awaitmethod(func: Callable[P, Coroutine[Any, Any, T]]) -> Callable[P, Iterator[T]]:
